@@ -2,6 +2,7 @@ import RR.Proof.SyncSpecs
 import RR.Proof.Hand
 import RR.Proof.Conv
 import RR.Proof.ResamplerSpec
+import RR.Proof.V2S
 
 /-!
 # C10 — exactly-specified blocks compute their documented function
@@ -115,5 +116,36 @@ example : (s2pLoop 100 10 1 [⟨1, 100, 1⟩, ⟨3, 100, 0⟩] [5, 6, 7, 8, 9, 1
 /-! Non-vacuity. -/
 example : nrziSpec 0 [1, 1, 0, 0, 1] = [0, 1, 0, 1, 0] := by decide
 example : (rtlSpec [1, 2, 3, 4, 5]).length = 2 := by simp [rtlSpec, pairs]
+
+/-- **VecToStream, every schedule** (`sched` = (packets queued, free output samples) at each call): the output
+is the concatenation of the packets popped so far — nothing lost, split, duplicated or reordered — and the
+tags added are exactly a start tag on the first and an end tag on the last sample of every non-empty packet,
+carrying the packet length. A packet is emitted whole or not at all. -/
+theorem c10_v2s (pk : List (List Nat)) (hpk : ∀ p ∈ pk, ∀ x ∈ p, x + 1 < pktBase) (sched : List (Nat × Nat)) :
+    let r := driveV2S pk 0 [] [] sched
+    r.1 ≤ pk.length ∧ r.2.1 = (pk.take r.1).flatten ∧ r.2.2 = v2sTags 0 (pk.take r.1) := by
+  have := v2s_drive pk hpk sched 0 (Nat.zero_le _)
+  simpa [v2sTags] using this
+
+/-- VecToStream, one call: an empty queue waits for a packet; a packet larger than the free output space is
+left queued and the block asks for exactly its length; otherwise exactly one packet is popped. -/
+theorem c10_v2s_call (p : List Nat) (hp : ∀ x ∈ p, x + 1 < pktBase) (rest : List Nat) (f : Nat) :
+    (v2sWork () ⟨[⟨[], [], true⟩], [⟨f, true⟩]⟩).2.verdict = .waitIn 0 1 ∧
+    (let r := v2sWork () ⟨[⟨encodePkt p :: rest, [], true⟩], [⟨f, true⟩]⟩
+     if p.length > f then r.2.verdict = .waitOut 0 p.length ∧ r.2.consumed.getD 0 0 = 0 ∧
+        (r.2.produced.getD 0 ⟨[], []⟩).samples = []
+     else r.2.verdict = .again ∧ r.2.consumed.getD 0 0 = 1 ∧ (r.2.produced.getD 0 ⟨[], []⟩).samples = p ∧
+        (r.2.produced.getD 0 ⟨[], []⟩).tags = v2sTags 0 [p]) :=
+  v2s_call p hp rest f
+
+/-- ConstantSource: every call fills all the free space with the value and reports a wait on its output. -/
+theorem c10_constant_source (val f : Nat) :
+    let r := constWork val () ⟨[], [⟨f, true⟩]⟩
+    (r.2.produced.getD 0 ⟨[], []⟩).samples = List.replicate f val ∧ r.2.verdict = .waitOut 0 1 := by
+  simp [constWork, out0]
+
+example : (driveV2S [[1, 2, 3], [], [4]] 0 [] [] [(1, 2), (3, 3), (2, 0), (2, 5)]) =
+    (3, [1, 2, 3, 4], [⟨0, v2sStartKey, 3⟩, ⟨2, v2sEndKey, 3⟩, ⟨3, v2sStartKey, 1⟩, ⟨3, v2sEndKey, 1⟩]) := by
+  decide +kernel
 
 end RR.Props.C10
